@@ -328,10 +328,10 @@ func runDispatchFile(in, out, targetsFile, tmp string) (int, error) {
 					switch {
 					case resp.GetStatus().GetCode() == 0:
 						o = "ok"
+					case resp.GetDeniedResponse() != nil:
+						o = "oidc" // the OIDC filter's denials carry an answer for the browser (login redirect, malformed callback), whatever their status code
 					case resp.GetStatus().GetCode() == 7:
-						o = "deny"
-					case resp.GetDeniedResponse() != nil && (resp.GetStatus().GetCode() == 16 || resp.GetStatus().GetCode() == 3):
-						o = "oidc" // the OIDC filter's denials: unauthenticated (login redirect) or invalid argument (malformed callback)
+						o = "deny" // the mock filter's denial (and "no chain matched") is a bare status
 					default:
 						o = fmt.Sprintf("code%d", resp.GetStatus().GetCode())
 					}
